@@ -15,6 +15,8 @@ def extra(led, tier, seed):
     led.extend(kauri_fit.obligations())
     led.extend(o for o in predict_glue.obligations() if o.name.startswith("Kauri."))
     led.extend(kauri_conformance.obligations(seed))
+    from contracts import dtype_native
+    led.extend(dtype_native.predict_dtypes(seed, only=("Kauri",)))
     led.extend(o for o in kauri_native.obligations(tier, seed) if "structural limits" in o.name)
     led.assume("A1", "A2", "A3", "A4", "A7: extraction of _utils.pyx (see engine/decython.py); conformance with the compiled extension checked on random states",
                "limits follow from the loop contracts: n_leaves < max_leaves in the guard and +1 per split => leaves <= max_leaves; a child is queued only when "
